@@ -37,6 +37,7 @@ import (
 	"regexp"
 	"sort"
 	"strings"
+	"sync"
 	"testing"
 	"time"
 
@@ -106,6 +107,8 @@ type c15nKernel struct {
 	injRunFired, injAfterCommit, natRunFailed, injListRulesFired, injListFired, raceFired, runsOK int
 
 	dpCalls []string
+
+	elemMu sync.Mutex // ListElements is called from several goroutines (Maps.LoadDataplaneState)
 }
 
 var _ knftables.Interface = (*c15nKernel)(nil)
@@ -335,6 +338,8 @@ func (k *c15nKernel) ListRules(ctx context.Context, chain string) ([]*knftables.
 }
 
 func (k *c15nKernel) ListElements(ctx context.Context, objectType, name string) ([]*knftables.Element, error) {
+	k.elemMu.Lock()
+	defer k.elemMu.Unlock()
 	if k.listElemFaults > 0 {
 		k.listElemFaults--
 		k.injListFired++
